@@ -80,6 +80,8 @@ GENERIC_ITEMS = [  # compile-valid generic declarations per derive family (deriv
     # field types in which an EXPRESSION (a constant's path as the array length) follows the type parameter
     ("AsRef", "#[derive(derive_more::AsRef, derive_more::AsMut)] pub struct G<T>(#[as_ref([T])] #[as_mut([T])] pub [T; LEN]);"),
     ("AsRef", "#[derive(derive_more::AsRef)] pub struct G<T> { #[as_ref([T], [T; LEN])] pub a: [T; LEN], pub b: u8 }"),
+    ("AsRef", "#[derive(derive_more::AsRef, derive_more::AsMut)] pub struct G<T>(#[as_ref([u8])] #[as_mut([u8])] pub [T; LEN]);"),
+    ("AsRef", "#[derive(derive_more::AsRef)] pub struct G<'a, T> { #[as_ref(str)] pub a: (&'a T, [u8; LEN]), pub b: u8 }"),
     ("Debug", "#[derive(derive_more::Debug)] pub struct G<T>(pub [T; LEN], pub [u8; LEN]);"),
     ("Display", "#[derive(derive_more::Display)] #[display(\"{}\", _0[0])] pub struct G<T>(pub [T; LEN]) where T: core::fmt::Display;"),
     ("Error", "#[derive(derive_more::Debug, derive_more::Display, derive_more::Error)] #[display(\"e\")] pub struct G<T>(#[error(source)] pub Box<T>, pub [u8; LEN]);"),
